@@ -30,7 +30,11 @@ def _op_ws(rng, c):
 
 
 def req_struct(rng):
-    st = {"name": rng.choice(GM.NAMES), "extras": rng.sample(["a", "B_c", "d.e", "f", "g-h", "x1"], rng.randrange(0, 4)) if rng.random() < 0.5 else [],
+    name = rng.choice(GM.NAMES) if rng.random() < 0.6 else GM.pep508_name(rng)
+    extras = rng.sample(["a", "B_c", "d.e", "f", "g-h", "x1"], rng.randrange(0, 4)) if rng.random() < 0.5 else []
+    if extras and rng.random() < 0.4:
+        extras[rng.randrange(len(extras))] = GM.pep508_name(rng)
+    st = {"name": name, "extras": extras,
           "clauses": [], "paren": False, "url": None, "marker": None}
     if rng.random() < 0.2:
         st["url"] = rng.choice(URLS)
